@@ -1,7 +1,10 @@
 from .. import flow
 from ..engines_cache import CacheEngine, POLICIES
+from ..engines_loader import LoaderConc
 
-ENGINES = [CacheEngine(prop="C11")]
+# the loader's gated concurrent scenarios judge the fetch_with clause of C11 ("a fetch_with hit ...
+# no resurrection of a removed value") with the clause id C11:removed-value-returned
+ENGINES = [CacheEngine(prop="C11"), LoaderConc()]
 
 ASSUMPTIONS = [
     "K2 (operation-level) model: every API call is one atomic step; run_maintenance and the janitor's passes are steps that may occur at any point of the sequence. The sentence of C11 about CONCURRENT read-modify-writes is not covered by this model (partial).",
